@@ -164,21 +164,11 @@ def leanchecker(modules):
         return dict(ex.map(one, modules))
 
 
-def interpreter_crosscheck(pid, per_file=40):
+def interpreter_crosscheck(sample):
     """re-judge a sample of this run's case lines with `lean --run` (interpreter) and compare with the
     compiled driver's verdicts"""
-    wdir = os.path.join(WORK, pid)
-    lines, verdicts = [], []
-    for f in sorted(os.listdir(wdir)):
-        if not f.endswith(".cases"):
-            continue
-        with open(os.path.join(wdir, f)) as fc, open(os.path.join(wdir, f[:-6] + ".verdicts")) as fv:
-            cl, vl = fc.readlines(), fv.readlines()
-        step = max(1, len(cl) // per_file)
-        for i in range(0, min(len(cl), len(vl)), step):
-            if len(cl[i]) < 20000:
-                lines.append(cl[i])
-                verdicts.append(vl[i].rstrip("\n"))
+    lines = [c for c, _ in sample]
+    verdicts = [v for _, v in sample]
     p = subprocess.run(["lake", "env", "lean", "--run", "Driver/Main.lean"], cwd=LEAN, input="".join(lines),
                        stdout=subprocess.PIPE, stderr=subprocess.PIPE, text=True, env=ENV, timeout=3000)
     got = p.stdout.splitlines()
@@ -237,6 +227,7 @@ class Tally:
         self.confirmed = []         # (case, verdict, what the oracle / the pinned observation says)
         self.unconfirmed = []       # relevant disagreements the model-free oracle does not object to
         self.groups = {}            # C20: history -> implementation observations of its executions
+        self.interp_sample = []     # (case line, verdict) pairs re-judged by the interpreter in the thorough tier
         self.evaluations = 0
         self.tags = {}
         self.distinct = set()
@@ -255,6 +246,16 @@ class Tally:
             vl = fv.readlines()
         if len(cl) != len(vl):
             self.errors.append(f"{res['fam']} seed {res['seed']}: {len(cl)} cases but {len(vl)} verdicts")
+        # sample for the interpreter cross-check of the thorough tier; then free the disk
+        step = max(1, len(cl) // 40)
+        for i in range(0, min(len(cl), len(vl)), step):
+            if len(cl[i]) < 20000 and len(self.interp_sample) < 2000:
+                self.interp_sample.append((cl[i], vl[i].rstrip("\n")))
+        for f in (res["cases"], res["verdicts"]):
+            try:
+                os.remove(f)
+            except OSError:
+                pass
         import project
         if self.pid == "C20":
             for c in cl:
